@@ -134,7 +134,7 @@ class OriginsEngine(OriginsEngineBase):
         ratio = np.maximum(0.05, np.minimum(1.0, ratio))  # limit ratio to avoid nans
         q_speed = lanes * v_lim * rho_crit * np.power(-a * np.log(ratio), 1 / a)
         q_cap = lanes * V_crit * rho_crit
-        q_lim = q_speed if v_lim < V_crit else q_cap
+        q_lim = np.where(v_lim < V_crit, q_speed, q_cap)
         return np.minimum(d + w / T, q_lim)
 
     @staticmethod
